@@ -318,6 +318,24 @@ func buildAndVerify(vc vcase) VObs {
 	required := metaMap(in.Required)
 	mt := mediaTypeOf(vc.format)
 	panicked, msg := guarded(func() {
+		if vc.sigMut%3 == 1 {
+			// the verifier has been used before: another, valid signature of the same signer over ANOTHER artifact, carrying
+			// every metadata key, is verified first with the same verifier object.  What follows must not depend on it.
+			dd := ocispec.Descriptor{MediaType: mtB, Digest: digestOf(digest.SHA256, blobB), Size: int64(len(blobB)),
+				Annotations: metaMap(map[string]string{"k1": "v1", "k2": "v1"})}
+			dp, _ := json.Marshal(map[string]interface{}{"targetArtifact": dd})
+			decoy := cachedEnv("decoy|"+vc.format+"|"+string(fx.scheme)+"|"+fx.chainKey, func() []byte {
+				return SignEnvelope(EnvSpec{Format: vc.format, Chain: fx.chain, Scheme: fx.scheme, SigningTime: at(-2), Payload: dp, Agent: "verif-harness/decoy"})
+			})
+			dd.Annotations = nil
+			if in.API == "Verify" {
+				_, _ = v.Verify(ctx, dd, decoy, notation.VerifierVerifyOptions{ArtifactReference: artifactRef(), SignatureMediaType: mt})
+			} else {
+				_, _ = bv.VerifyBlob(ctx, func(digest.Algorithm) (ocispec.Descriptor, error) { return dd, nil }, decoy,
+					notation.BlobVerifierVerifyOptions{SignatureMediaType: mt, TrustPolicyName: blobName})
+			}
+			fx.resetLogs()
+		}
 		if in.API == "Verify" {
 			desc := fx.presentedDesc(digest.SHA256)
 			outcome, verr = v.Verify(ctx, desc, env, notation.VerifierVerifyOptions{
@@ -774,4 +792,28 @@ func docAliased() bool {
 		docAliasedVal = verr == nil
 	})
 	return docAliasedVal
+}
+
+// resetLogs forgets the calls the mocks have seen so far (used after the decoy verification).
+func (fx *vfixture) resetLogs() {
+	fx.store.mu.Lock()
+	fx.store.calls = nil
+	fx.store.mu.Unlock()
+	for _, r := range []*mockRevocation{fx.rev, fx.tsaRev} {
+		if r != nil {
+			r.mu.Lock()
+			r.calls = nil
+			r.mu.Unlock()
+		}
+	}
+	if fx.plugin != nil {
+		fx.plugin.mu.Lock()
+		fx.plugin.requests = nil
+		fx.plugin.mu.Unlock()
+	}
+	if fx.manager != nil {
+		fx.manager.mu.Lock()
+		fx.manager.gets = nil
+		fx.manager.mu.Unlock()
+	}
 }
